@@ -343,7 +343,7 @@ impl<'a> HeaderValueEncoder<'a> {
             // Blanks between two words that need encoding must be part of the
             // encoded text: a reader drops white space between adjacent encoded-words
             let blanks_inside_encoded =
-                !self.encode_buf.is_empty() && next_word.bytes().all(|c| c == b' ');
+                !self.encode_buf.is_empty() && next_word.bytes().all(|c| c == b' ' || c == b'\t');
             let allowed = allowed_str(next_word) && !blanks_inside_encoded;
 
             if allowed {
